@@ -88,6 +88,7 @@ type c10env struct {
 	cbRSA    *rsa.PrivateKey
 	gpgDone  bool
 	roleNote bool
+	sde      string // SOURCE_DATE_EPOCH in force while the families run ("" = unset)
 }
 
 func (x *c10env) key(name string) string { return filepath.Join(x.td, name) }
@@ -208,6 +209,10 @@ func (x *c10env) checkPGP(fam, shapePrefix, what string, msg, sig []byte, armore
 func (x *c10env) build(fam *report.Family, famName, format, pre string, s *PkgSpec, label string) (*Decoded, map[string]any, bool) {
 	in := s.Input()
 	in["format"] = format
+	if x.sde != "" {
+		in["SOURCE_DATE_EPOCH"] = x.sde
+		label += "|SOURCE_DATE_EPOCH=" + x.sde
+	}
 	key := fmt.Sprintf("%s|%v", format, in)
 	data, err := BuildPkg(format, s.Info())
 	if err != nil {
@@ -1041,5 +1046,15 @@ func runC10(c *Ctx) error {
 	x.apkFamily()
 	x.callbacksFamily(r.Fork("callbacks"))
 	x.failuresFamily()
+	// the same key-file families with SOURCE_DATE_EPOCH set to a date older than every key (reproducible builds of an
+	// old commit with a newer key): the package time follows it, the signature must still be made and verify
+	x.sde = "946684800"
+	_ = os.Setenv("SOURCE_DATE_EPOCH", x.sde)
+	x.debsignFamily()
+	x.dpkgSigFamily()
+	x.rpmFamily()
+	x.apkFamily()
+	_ = os.Unsetenv("SOURCE_DATE_EPOCH")
+	x.sde = ""
 	return nil
 }
